@@ -26,6 +26,8 @@ type c20CLICase struct {
 	More []int `json:"more_alignments,omitempty"`
 	// Threads: --threads (0: not given)
 	Threads int `json:"threads,omitempty"`
+	// Existing (file outputs): the output file exists already and is longer than what the command writes
+	Existing bool `json:"existing_file,omitempty"`
 }
 
 func c20CheckCLI(c *mc.Ctx, box *cliBox, cs c20CLICase) {
@@ -74,6 +76,9 @@ func c20CheckCLI(c *mc.Ctx, box *cliBox, cs c20CLICase) {
 			name = "w.txt.gz"
 		}
 		box.drop(name)
+		if cs.Existing && !box.put(c, name, strings.Repeat(strings.Repeat("1.000000\t", 3*cs.L+5)+"\n", cs.N+3)) {
+			return
+		}
 		err, pn, msg, herr = box.run(c, append(args, "-o", box.path(name))...)
 		if err == nil && !pn && !herr {
 			var ok bool
@@ -143,6 +148,10 @@ func c20CLITasks() []mc.Task {
 			for seed := 1; seed <= 2; seed++ {
 				c20CheckCLI(c, box, c20CLICase{CLI: true, L: 10, N: 2, Seed: seed, Out: "stdout", More: more})
 			}
+		}
+		// the output file exists already, longer than the new content (a re-run with fewer vectors)
+		for _, n := range []int{1, 3} {
+			c20CheckCLI(c, box, c20CLICase{CLI: true, L: 12, N: n, Seed: 2, Out: "file", Existing: true})
 		}
 		// several threads asked for: as many vectors, each of one weight per site
 		for _, threads := range []int{1, 2, 3, 4, 16} {
